@@ -15,8 +15,8 @@ META = {
         "vertices and >=1 edge; distinct = graph (small) or (n, #edges, #orderings)."
     ),
     "floors": {
-        "quick": {"evaluations": 10000, "mon.all": 5000, "mon.one": 5000, "mon.insitu": 10, "duplicate_constraint_presentations": 200},
-        "thorough": {"evaluations": 140000, "mon.all": 70000, "mon.one": 70000, "mon.insitu": 100},
+        "quick": {"evaluations": 10000, "mon.all": 5000, "mon.one": 5000, "mon.insitu": 10, "duplicate_constraint_presentations": 200, "mon.edit_history": 1000},
+        "thorough": {"evaluations": 140000, "mon.all": 70000, "mon.one": 70000, "mon.insitu": 100, "mon.edit_history": 10000},
     },
     "exhaustive": {"quick": True, "thorough": True},
     "space": {"quick": "all digraphs on <=3 vertices (self-loops included) + 5k random on 4 + random up to 7", "thorough": "all 65 536 digraphs on 4 vertices and all smaller ones; random digraphs and DAGs up to 7 vertices"},
@@ -123,6 +123,39 @@ def check_graph(ctx, graph, monitor_prefix="C19", extra=None):
         ctx.sample(case)
 
 
+def check_edit_history(ctx, graph, rng, steps=2):
+    """History workload: the SAME graph object is sorted, edited in place (an edge added to / removed from a successor
+    collection, a vertex added), and sorted again; each answer must be exact for the graph as it is at that moment."""
+    verts = list(graph)
+    if not verts:
+        return
+    edits = []
+    for _ in range(steps):
+        a, b = rng.choice(verts), rng.choice(verts)
+        succ = graph[a]
+        if b in succ and rng.random() < 0.6:
+            if isinstance(succ, (set, frozenset)):
+                succ.discard(b)
+            else:
+                while b in succ:
+                    succ.remove(b)
+            edits.append(["del", str(a), str(b)])
+        elif rng.random() < 0.85 or len(graph) >= 6:
+            if isinstance(succ, (set, frozenset)):
+                succ.add(b)
+            else:
+                succ.append(b)
+            edits.append(["add", str(a), str(b)])
+        else:
+            new = f"new{len(graph)}" if isinstance(verts[0], str) else len(graph) + 100
+            graph[new] = set() if isinstance(succ, (set, frozenset)) else []
+            graph[a].add(new) if isinstance(succ, (set, frozenset)) else graph[a].append(new)
+            verts.append(new)
+            edits.append(["vertex", str(a), str(new)])
+        ctx.count("mon.edit_history")
+        check_graph(ctx, graph, extra={"history": "same graph object sorted before, then edited in place", "edits": [list(e) for e in edits]})
+
+
 def graph_from_bits(n, bits, names=None):
     names = names or list(range(n))
     g = {names[i]: set() for i in range(n)}
@@ -162,6 +195,8 @@ def run(ctx, spec):
                 continue
             g = graph_from_bits(n, bits, names)
             check_graph(ctx, g)
+            if 1 <= n <= 3 or (n == 4 and idx % 8 == spec["i"] % 8):
+                check_edit_history(ctx, g, ctx.rng("edit", idx), steps=2)
             if n <= 3 or idx % 16 == spec["i"] % 16:
                 lr = ctx.rng("lists", idx)
                 gl = as_lists(g, lr)
@@ -192,7 +227,12 @@ def run(ctx, spec):
         check_graph(ctx, g)
         if rng.random() < 0.4:
             ctx.count("duplicate_constraint_presentations")
-            check_graph(ctx, as_lists(g, rng))
+            gl = as_lists(g, rng)
+            check_graph(ctx, gl)
+            if rng.random() < 0.5:
+                check_edit_history(ctx, gl, rng, steps=2)
+        if rng.random() < 0.5:
+            check_edit_history(ctx, g, rng, steps=3)
         if ctx.too_many():
             return
 
